@@ -13,10 +13,14 @@ SigEdge == { <<1>>, <<2>>, <<5>>, <<1, 5>>, <<2, 5>>, <<9, 5>>, <<9, 9>>, <<1, 2
 SigUnc == { <<1>>, <<1, 5>>, <<9, 9, 9, 6>>, <<3, 1, 4, 1, 6>>, <<1, 2, 3, 4, 5, 6, 7, 8, 9>>, <<9, 9, 7, 5, 2>>, <<9, 5>>, <<5>> }
 USig == { <<1>>, <<2, 9>>, <<3, 4, 9>>, <<9, 9, 6>>, <<9, 5>>, <<2, 5>>, <<5>>, <<4, 4, 4>> }
 
+SigCover == { <<1>>, <<9, 9, 6>>, <<1, 2, 5>> }
+USigCover == { <<2, 9>>, <<9, 9, 6>> }
+ExpCover == {-5, 0, 3}
 ExpSmall == -6..6
 ExpAll == -300..300
 ExpStep == { -300 + 25 * i : i \in 0..24 } \cup {-5, -4, -1, 0, 1, 2, 3, 4, 5, 6, 15, 16, 17, 22, 23, 99, 100, -100, -99, 299, 300, -299}
-ExpUnc == {-300, -10, -5, -1, 0, 3, 9, 15, 100}
+ExpUnc == {-300, -5, 0, 3, 15, 100}
+ExpUncT == {-300, -100, -10, -5, -1, 0, 3, 9, 15, 100, 300}
 Both == {FALSE, TRUE}
 Pos == {FALSE}
 =============================================================================
